@@ -397,4 +397,183 @@ theorem allocInode_inv (s : Acc) (isDir : Bool) (h : AccInv s) : AccInv (allocIn
       have := hgi.2
       omega
 
+/-! ### Remove (repaired bookkeeping) -/
+
+theorem modifyAt_getElem? : ∀ (gs : List Group) (i j : Nat) (f : Group → Group),
+    (modifyAt gs i f)[j]? = if j = i then gs[j]?.map f else gs[j]? := by
+  intro gs
+  induction gs with
+  | nil => intro i j f; simp [modifyAt]
+  | cons g gs ih =>
+    intro i j f
+    cases i with
+    | zero =>
+      cases j with
+      | zero => simp [modifyAt]
+      | succ j => simp [modifyAt]
+    | succ i =>
+      cases j with
+      | zero => simp [modifyAt]
+      | succ j => simp only [modifyAt, List.getElem?_cons_succ, ih i j f]; simp
+
+/-- releasing one marked block: the group counter follows its bitmap; the superblock counter is updated only at
+    the end of Remove, so it lags by one more -/
+theorem freeBlock_inv (geo : Geom) (s : Acc) (b a c : Nat) (hi : Inv2 s a c) (hm : blockMarked geo s b = true) :
+    Inv2 (freeBlock true geo s b) (a + 1) c := by
+  obtain ⟨hg, hb, hino⟩ := hi
+  simp only [blockMarked, Bool.and_eq_true, decide_eq_true_eq] at hm
+  obtain ⟨_, hu⟩ := hm
+  unfold runUsed at hu
+  simp only at hu
+  split at hu
+  · rename_i g hget
+    have hgi := hg g (mem_of_getElem? hget)
+    have hcf := countFree_clearRun g.bbm ((b - geo.fdb) % geo.bpg) 1 hu
+    have hidx : (b - geo.fdb) - geo.bpg * ((b - geo.fdb) / geo.bpg) = (b - geo.fdb) % geo.bpg := by
+      rw [Nat.mod_def]
+    simp only [freeBlock, if_true, hidx]
+    refine ⟨?_, ?_, ?_⟩
+    · intro g' hg'
+      rcases modifyAt_mem _ _ _ _ hg' with h | ⟨g0, h1, h2⟩
+      · exact hg g' h
+      · rw [hget] at h1; cases h1; subst h2
+        refine ⟨?_, hgi.2⟩
+        simp only; rw [hgi.1]; omega
+    · have := modifyAt_sum (·.freeBlocks) s.groups ((b - geo.fdb) / geo.bpg)
+        (fun g => { g with bbm := clearRun g.bbm ((b - geo.fdb) % geo.bpg) 1, freeBlocks := g.freeBlocks + 1 }) g hget
+      simp only at this ⊢
+      omega
+    · have := modifyAt_sum (·.freeInodes) s.groups ((b - geo.fdb) / geo.bpg)
+        (fun g => { g with bbm := clearRun g.bbm ((b - geo.fdb) % geo.bpg) 1, freeBlocks := g.freeBlocks + 1 }) g hget
+      simp only at this ⊢
+      omega
+  · simp at hu
+
+theorem freeBlocks_inv (geo : Geom) : ∀ (blocks : List Nat) (s : Acc) (a c : Nat), Inv2 s a c →
+    blocksMarked geo s blocks = true → Inv2 (blocks.foldl (freeBlock true geo) s) (a + blocks.length) c := by
+  intro blocks
+  induction blocks with
+  | nil => intro s a c h _; simpa using h
+  | cons b bs ih =>
+    intro s a c h hm
+    simp only [blocksMarked, Bool.and_eq_true] at hm
+    have := ih (freeBlock true geo s b) (a + 1) c (freeBlock_inv geo s b a c h hm.1) hm.2
+    simp only [List.foldl_cons, List.length_cons]
+    have e : a + (bs.length + 1) = a + 1 + bs.length := by omega
+    rw [e]; exact this
+
+theorem modifyAt_ibm (gs : List Group) (i j : Nat) (f : Group → Group) (hf : ∀ g, (f g).ibm = g.ibm) :
+    ((modifyAt gs i f)[j]?).map (·.ibm) = (gs[j]?).map (·.ibm) := by
+  rw [modifyAt_getElem?]
+  split
+  · cases gs[j]? <;> simp [hf]
+  · rfl
+
+/-- releasing blocks does not touch any inode bitmap -/
+theorem freeBlock_ibm (fixed : Bool) (geo : Geom) (s : Acc) (b j : Nat) :
+    ((freeBlock fixed geo s b).groups[j]?).map (·.ibm) = (s.groups[j]?).map (·.ibm) := by
+  simp only [freeBlock]
+  exact modifyAt_ibm _ _ _ _ (fun g => rfl)
+
+theorem freeBlocks_ibm (fixed : Bool) (geo : Geom) : ∀ (blocks : List Nat) (s : Acc) (j : Nat),
+    ((blocks.foldl (freeBlock fixed geo) s).groups[j]?).map (·.ibm) = (s.groups[j]?).map (·.ibm) := by
+  intro blocks
+  induction blocks with
+  | nil => intro s j; rfl
+  | cons b bs ih => intro s j; simp only [List.foldl_cons]; rw [ih, freeBlock_ibm]
+
+/-- removeInode with the repaired arithmetic restores `counters = bitmaps` from ANY state that satisfies it,
+    for every inode that is marked and every list of marked, pairwise distinct blocks -/
+theorem removeInode_fixed_inv (geo : Geom) (s : Acc) (ino : Nat) (blocks : List Nat) (b512 : Nat) (isDir : Bool)
+    (h : AccInv s) (hb : blocksMarked geo s blocks = true) (hi : inodeMarked geo s ino = true) :
+    AccInv (removeInode true geo s ino blocks b512 isDir) := by
+  have h1 := freeBlocks_inv geo blocks s 0 0 ((accInv_iff s).1 h) hb
+  simp only [Nat.zero_add] at h1
+  generalize hs1 : blocks.foldl (freeBlock true geo) s = s1 at h1
+  simp only [inodeMarked, Bool.and_eq_true, decide_eq_true_eq] at hi
+  obtain ⟨_, hi2⟩ := hi
+  have hibm := freeBlocks_ibm true geo blocks s ((ino - 1) / geo.ipg)
+  rw [hs1] at hibm
+  split at hi2
+  · rename_i g0 hget0
+    rw [hget0] at hibm
+    cases hget : s1.groups[(ino - 1) / geo.ipg]? with
+    | none => rw [hget] at hibm; simp at hibm
+    | some g =>
+      rw [hget] at hibm
+      simp only [Option.map_some, Option.some.injEq] at hibm
+      rw [← hibm] at hi2
+      obtain ⟨hg, hbk, hino⟩ := h1
+      have hgi := hg g (mem_of_getElem? hget)
+      have hcf := countFree_clearRun g.ibm ((ino - 1) % geo.ipg) 1 hi2
+      have hidx : (ino - 1) - geo.ipg * ((ino - 1) / geo.ipg) = (ino - 1) % geo.ipg := by
+        rw [Nat.mod_def]
+      simp only [removeInode, hs1, if_true, hidx, Nat.add_zero]
+      refine ⟨?_, ?_, ?_⟩
+      · intro g' hg'
+        rcases modifyAt_mem _ _ _ _ hg' with h | ⟨g1, h1, h2⟩
+        · exact hg g' h
+        · rw [hget] at h1; cases h1; subst h2
+          refine ⟨hgi.1, ?_⟩
+          simp only; rw [hgi.2]; omega
+      · have := modifyAt_sum (·.freeBlocks) s1.groups ((ino - 1) / geo.ipg)
+          (fun g => { g with ibm := clearRun g.ibm ((ino - 1) % geo.ipg) 1, freeInodes := g.freeInodes + 1,
+                             freeBlocks := g.freeBlocks,
+                             usedDirs := if isDir then g.usedDirs - 1 else g.usedDirs }) g hget
+        simp only at this ⊢
+        omega
+      · have := modifyAt_sum (·.freeInodes) s1.groups ((ino - 1) / geo.ipg)
+          (fun g => { g with ibm := clearRun g.ibm ((ino - 1) % geo.ipg) 1, freeInodes := g.freeInodes + 1,
+                             freeBlocks := g.freeBlocks,
+                             usedDirs := if isDir then g.usedDirs - 1 else g.usedDirs }) g hget
+        simp only at this ⊢
+        omega
+  · simp at hi2
+
+theorem removeOp_inv (geo : Geom) (s : Acc) (ino : Nat) (blocks : List Nat) (isDir : Bool) (h : AccInv s) :
+    AccInv (removeOp geo s ino blocks isDir).state := by
+  unfold removeOp
+  split
+  · rename_i hc
+    simp only [Bool.and_eq_true] at hc
+    exact removeInode_fixed_inv geo s ino blocks 0 isDir h hc.1 hc.2
+  · exact h
+
+/-! ### deallocateExtents on absolute block numbers -/
+
+/-- with the repaired arithmetic, releasing block `b` is `unmarkRun` of its bit in its group -/
+theorem deallocBlock_fixed_eq (geo : Geom) (s : Acc) (b : Nat) :
+    deallocBlock true geo s b = unmarkRun s ((b - geo.fdb) / geo.bpg, (b - geo.fdb) % geo.bpg, 1) := by
+  have hidx : b - (geo.fdb + (b - geo.fdb) / geo.bpg * geo.bpg) = (b - geo.fdb) % geo.bpg := by
+    rw [Nat.mod_def, Nat.mul_comm]; omega
+  simp only [deallocBlock, if_true, unmarkRun, hidx]
+
+theorem deallocBlock_fixed_inv (geo : Geom) (s : Acc) (b : Nat) (h : AccInv s) (hm : blockMarked geo s b = true) :
+    AccInv (deallocBlock true geo s b) := by
+  simp only [blockMarked, Bool.and_eq_true, decide_eq_true_eq] at hm
+  rw [deallocBlock_fixed_eq geo s b]
+  exact unmarkRun_inv s _ h hm.2
+
+theorem deallocBlocks_fixed_inv (geo : Geom) : ∀ (blocks : List Nat) (s : Acc), AccInv s →
+    blocksMarkedD geo s blocks = true → AccInv (deallocBlocks true geo s blocks) := by
+  intro blocks
+  induction blocks with
+  | nil => intro s h _; exact h
+  | cons b bs ih =>
+    intro s h hm
+    simp only [blocksMarkedD, Bool.and_eq_true] at hm
+    exact ih _ (deallocBlock_fixed_inv geo s b h hm.1) hm.2
+
+/-- the arithmetic as found is the repaired one when the first data block is 1 (1 KiB blocks) -/
+theorem deallocBlock_asfound_eq (geo : Geom) (s : Acc) (b : Nat) (h : geo.fdb = 1) :
+    deallocBlock false geo s b = deallocBlock true geo s b := by
+  simp [deallocBlock, h]
+
+theorem freeBlocksOp_inv (geo : Geom) (s : Acc) (blocks : List Nat) (h : AccInv s) :
+    AccInv (freeBlocksOp geo s blocks).state := by
+  unfold freeBlocksOp
+  split
+  · rename_i hc; exact deallocBlocks_fixed_inv geo blocks s h hc
+  · exact h
+
 end Diskfs.Ext4.Alloc
